@@ -31,5 +31,8 @@ class ExprDynamicModel(ExprModel):
         
     def build_expr(self):
         raise Exception("Class " + str(type(self)) + " does not implement build_expr")
+    
+    def val(self):
+        return self.expr().val()
         
         
